@@ -470,17 +470,19 @@ def list_method(ex, l, name, args, kwargs):
         items.insert(i, args[1])
         return None
     if name == 'remove':
-        for i, x in enumerate(items):
+        for i in range(len(items)):
+            x = N.force_item(ex, items, i)
             if ex.branch(N.veq(ex, x, args[0])):
                 del items[i]
                 return None
         ex.throw('ValueError', 'list.remove(x): x not in list')
     if name == 'index':
         lo = args[1] if len(args) > 1 else 0
-        for i, x in enumerate(items):
+        for i in range(len(items)):
             if i < lo:
                 continue
-            if ex.branch(N.veq(ex, x, args[0])):
+            x = N.force_item(ex, items, i)
+            if ex.branch(ex.truth(N.veq(ex, x, args[0]))):
                 return i
         ex.throw('ValueError', 'x is not in list')
     if name == 'count':
